@@ -1,0 +1,13 @@
+//go:build verif
+
+// Contracts for package flags (machine-checked by /verif/engine; comment-only file).
+package flags
+
+// Set (-m level[:suffix],regex): an accepted rule has a non-negative level and suffix - account.Shorten
+// slices the account's segments with them (its precondition wfMapping), so a negative value must be
+// rejected here, with an error, and never reach the report.
+//@ func (*MappingFlag).Set
+//@   requires cf != nil && wfMapping(cf.m)
+//@   modifies cf.m, elems(cf.m)
+//@   ensures [C14] [C02] @wf: wfMapping(cf.m)
+//@   ensures [C14] @kept: result != nil ==> cf.m == old(cf.m)
